@@ -384,3 +384,84 @@ func TestVerifRotateLogger(t *testing.T) {
 		})
 	}
 }
+
+// Two size-triggered rotations in quick succession with compression on: the background
+// compression of the first backup and the clean-up after the second rotation interleave in
+// every way within the bound (file-system operations are scheduling points).  With no more
+// backups than maxBackups and none too old, none may be removed, and every record must still
+// be readable from the current file or a backup.
+func TestVerifRotateCompressionVsCleanup(t *testing.T) {
+	defer vrt.WriteReport()
+	Disable()
+	if !vrt.Shard(9) {
+		return
+	}
+	bound := 2
+	if vrt.Thorough() {
+		bound = 3
+	}
+	for _, gz := range []bool{true, false} {
+		gz := gz
+		vrt.Explore(vrt.Options{Name: fmt.Sprintf("rotatelogger/compression-vs-cleanup/gzip=%v", gz), Bound: bound, Horizon: 1 << 30, Budget: vrt.FairBudget(2)}, func(r *vrt.Run) {
+			s := newRlSys(r, rlCfg{rule: "size", days: 0, gzip: gz, delim: "-", maxSize: 10, maxBackups: 4, pre: "mixed3"})
+			// the three pre-existing backups plus one rotation's: exactly maxBackups (4) in the end
+			if err := os.Remove(firstBackupFile(s)); err != nil {
+				r.Failf("setup: %v", err)
+			}
+			delete(s.backups, strings.TrimSuffix(firstBackupFile(s), gzipExt))
+			// two pre-existing + two rotations = 4 = maxBackups: nothing may ever be removed
+			write := func(rec string) {
+				if _, err := s.l.Write([]byte(rec)); err != nil {
+					r.Failf("Write: %v", err)
+				}
+			}
+			write("r1:xxxx\n")
+			vrt.Advance(time.Second)
+			write("r2:yyyy\n") // rotation 1 (r1 becomes a backup)
+			vrt.Advance(time.Second)
+			write("r3:zzzz\n") // rotation 2 while rotation 1's compression / clean-up may still be running
+			vrt.Settle()
+			s.l.Close()
+			vrt.Settle()
+			// everything written is still somewhere, and the two old backups are still there
+			all := ""
+			ents, _ := os.ReadDir(s.dir)
+			names := []string{}
+			for _, e := range ents {
+				names = append(names, e.Name())
+				if c, ok := readMaybeGz(strings.TrimSuffix(filepath.Join(s.dir, e.Name()), gzipExt)); ok {
+					all += c
+				}
+			}
+			r.Outcome("%d files", len(names))
+			for _, rec := range []string{"r1:", "r2:", "r3:"} {
+				if !strings.Contains(all, rec) {
+					r.Failf("record %s is in no file any more (directory: %v)", rec, names)
+				}
+			}
+			old := 0
+			for _, n := range names {
+				if c, ok := readMaybeGz(strings.TrimSuffix(filepath.Join(s.dir, n), gzipExt)); ok && strings.HasPrefix(c, "OLD") {
+					old++
+				}
+			}
+			if old != 2 {
+				r.Failf("%d of the 2 pre-existing backups are left although only 4 backups ever existed and maxBackups is 4 (directory: %v)", old, names)
+			}
+		})
+	}
+}
+
+// firstBackupFile: the oldest pre-existing backup as it is on disk.
+func firstBackupFile(s *rlSys) string {
+	var names []string
+	for n := range s.backups {
+		names = append(names, n)
+	}
+	sort.Strings(names)
+	f := names[0]
+	if _, err := os.Stat(f); err != nil {
+		f += gzipExt
+	}
+	return f
+}
